@@ -160,7 +160,7 @@ func (x *CommonLex) Error(s string) {
 	}
 	x.progBldr.parseErr = fmt.Errorf("%s", s)
 	switch {
-	case x.peek == xutils.ERR:
+	case x.peek == badRune:
 		// The look-ahead is an invalid UTF-8 byte: it stands for exactly
 		// one byte of input, whatever the size of the marker rune.
 		x.progBldr.lineAtErr = "?" + string(x.line)
@@ -193,7 +193,7 @@ func LexCommon(x XpathLexer) (tokType int, tokVal TokVal) {
 		case xutils.EOF:
 			return xutils.EOF, nil
 
-		case xutils.ERR:
+		case badRune:
 			x.SetError(fmt.Errorf("Invalid UTF-8 input"))
 			return xutils.ERR, nil
 
@@ -437,7 +437,7 @@ func (x *CommonLex) LexName(c rune) (int, TokVal) {
 				x.err = fmt.Errorf("Name requires local part.")
 				return xutils.ERR, nil
 			}
-			if c == xutils.ERR {
+			if c == badRune {
 				x.SetError(fmt.Errorf("Invalid UTF-8 input"))
 				return xutils.ERR, nil
 			}
@@ -551,7 +551,7 @@ func (x *CommonLex) ConstructToken(
 		}
 	}
 	var b bytes.Buffer
-	if c == xutils.ERR {
+	if c == badRune {
 		x.SetError(fmt.Errorf("Invalid UTF-8 input"))
 	}
 	add(&b, c)
@@ -567,7 +567,7 @@ func (x *CommonLex) ConstructToken(
 					tokenName))
 				break
 			}
-			if c == xutils.ERR {
+			if c == badRune {
 				// Invalid UTF-8 is never part of a token, even if the
 				// matcher (eg for a literal) takes any character.
 				x.SetError(fmt.Errorf("Invalid UTF-8 input"))
@@ -681,6 +681,12 @@ func (x *CommonLex) nameIsAxisName(name string) bool {
 // words, what remains to be parsed when we call Next() is:
 //
 //	x.peek (if not EOF) + x.line
+// badRune is what Next() returns for a byte sequence that is not a
+// character (invalid UTF-8, NUL).  It is no rune at all, so it cannot be
+// mistaken for a character of the input the way a token value such as
+// xutils.ERR (U+F001) can.
+const badRune rune = -1
+
 func (x *CommonLex) Next() rune {
 	if x.peek != xutils.EOF {
 		r := x.peek
@@ -693,12 +699,12 @@ func (x *CommonLex) Next() rune {
 	c, size := utf8.DecodeRune(x.line)
 	x.line = x.line[size:]
 	if c == utf8.RuneError && size == 1 {
-		return xutils.ERR
+		return badRune
 	}
 	if c == 0 {
 		// NUL is not a character an expression can contain, and it must
 		// not be mistaken for the end of the input (EOF is 0 as well).
-		return xutils.ERR
+		return badRune
 	}
 	return c
 }
@@ -729,7 +735,7 @@ func next(line []byte) (rune, []byte) {
 	c, size := utf8.DecodeRune(line)
 	line = line[size:]
 	if c == utf8.RuneError && size == 1 {
-		return xutils.ERR, nil
+		return badRune, nil
 	}
 	return c, line
 }
@@ -763,7 +769,7 @@ func (x *CommonLex) NextNonWhitespaceStringIs(expr string) bool {
 
 	// Now compare the rest of the string against the input
 	for _, ec := range expr {
-		if lc == xutils.EOF || lc == xutils.ERR {
+		if lc == xutils.EOF || lc == badRune {
 			return false
 		}
 		if ec != lc {
